@@ -14,6 +14,8 @@ def run(ctx):
 
 
 def replay(ctx, payload):
+    if translate.is_link_replay(payload) and not payload.get("failing_input"):
+        return translate.replay(ctx, payload, "C12")  # a replay file written for a broken translation tie
     from vlib import solvercases as sc
 
     sc.replay_property(ctx, "C05", payload, strict_multi=False)
